@@ -250,7 +250,11 @@ impl Time {
 #[cfg(transparencies_stretto_verif)]
 impl<S: BuildHasher + Clone + 'static> ExpirationMap<S> {
     pub(crate) fn verif_buckets(&self) -> Vec<(i64, Vec<(u64, u64)>)> {
-        let m = self.buckets.read();
+        // the observer must not hang on a lock that the code under test never releases
+        let m = self
+            .buckets
+            .try_read_for(std::time::Duration::from_secs(3))
+            .expect("verif: the expiration map lock was not released within 3 s");
         let mut v: Vec<(i64, Vec<(u64, u64)>)> = m
             .iter()
             .map(|(b, bucket)| {
